@@ -1,0 +1,32 @@
+//go:build verif
+
+package str
+
+// Machine-checked contracts for the gowp verifier (/verif). Comment-only; compiled only under the
+// build tag "verif"; declares nothing.
+
+//@ spec skey(params internal.HandlerFuncParams) string = old(params.Command[1])
+//@ spec sarg(params internal.HandlerFuncParams, i int) string = old(params.Command[i])
+//@ spec slive(params internal.HandlerFuncParams, k string) bool = sugardb.livekey($srv, dbof(params.Context), k, $now)
+//@ spec sval(params internal.HandlerFuncParams, k string) any = $srv.store[dbof(params.Context)][k].Value
+//@ spec spure(params internal.HandlerFuncParams) bool = forall k string :: has($srv.store[dbof(params.Context)], k) ==> old(has($srv.store[dbof(params.Context)], k)) && $srv.store[dbof(params.Context)][k] == old($srv.store[dbof(params.Context)][k])
+//@ spec sbulk(s string) string = "$" ++ (itoa(len(s)) ++ ("\r\n" ++ (s ++ "\r\n")))
+
+// SUBSTR / GETRANGE key start end: both ends inclusive, negative indices count from the end, indices outside the value are
+// clamped. fromend: a negative index counts from the end; inclusive: the end index is included when it is not before the start.
+//@ spec fromend(n int, i int) int = i < 0 ? n + i : i
+//@ spec inclusive(s int, e int) int = (e >= 0 && e >= s) ? e + 1 : e
+//@ spec capped(n int, e int) int = e > n ? n : e
+//@ spec clampidx(n int, i int) int = i < 0 ? 0 : (i > n ? n : i)
+//@ spec sstart(params internal.HandlerFuncParams, n int) int = fromend(n, asint(internal.adapt(sarg(params, 2))))
+//@ spec send(params internal.HandlerFuncParams, n int) int = capped(n, inclusive(sstart(params, n), fromend(n, asint(internal.adapt(sarg(params, 3))))))
+
+//@ func handleSubStr props C01,C12,C13
+//@   requires generic.henv(params)
+//@   assumes own-cmd: len(params.Command) >= 2 ==> disjointarr(params.Command, $srv.keysWithExpiry.keys[dbof(params.Context)])
+//@   ensures {C01} arity: len(params.Command) != 4 ==> result1 != nil
+//@   ensures {C01} badindex: len(params.Command) == 4 && (!isint(internal.adapt(sarg(params, 2))) || !isint(internal.adapt(sarg(params, 3)))) ==> result1 != nil
+//@   ensures {C01} missing: len(params.Command) == 4 && !old(slive(params, skey(params))) ==> result1 != nil
+//@   ensures {C01} wrongtype: len(params.Command) == 4 && old(slive(params, skey(params))) && !old(isstr(sval(params, skey(params)))) ==> result1 != nil
+//@   ensures {C01} forward: len(params.Command) == 4 && isint(internal.adapt(sarg(params, 2))) && isint(internal.adapt(sarg(params, 3))) && old(slive(params, skey(params))) && old(isstr(sval(params, skey(params)))) && sstart(params, len(old(asstr(sval(params, skey(params)))))) <= send(params, len(old(asstr(sval(params, skey(params)))))) ==> result1 == nil && bstr(result0) == sbulk(old(asstr(sval(params, skey(params))))[clampidx(len(old(asstr(sval(params, skey(params))))), sstart(params, len(old(asstr(sval(params, skey(params))))))):clampidx(len(old(asstr(sval(params, skey(params))))), send(params, len(old(asstr(sval(params, skey(params)))))))])
+//@   ensures {C13,C01} pure: spure(params)
